@@ -257,13 +257,14 @@ def pred_dhg(snap, op, prev, exc):
 
 
 def run(ctx):
-    tab = translate()
+    from ..c18_translate import extract
+    tab = extract()
     ctx.extra["freeze_table"] = {k: v["frozen"] for k, v in tab.items()}
     # Props/C18D.lean: the same theorems on the directed model (C18_table_dihypergraph over the regenerated table, …)
     # Props/C18S.lean: the same theorems on the simplicial model (C18_table_simplicialcomplex over the regenerated table, …)
     ok = build_and_audit(ctx, "XgiModel.Props.C18", ["XgiModel.Drive.HG", "XgiModel.Props.C18D", "XgiModel.C02.Drive",
                                                       "XgiModel.Props.C18S"],
-                         audit_extra=("XgiModel.Props.C18D", "XgiModel.Props.C18S"))
+                         audit_extra=("XgiModel.Props.C18D", "XgiModel.Props.C18S"), translate=translate)
     ctx.rule = ("(a) probing: every public callable of the three classes (introspection) and the in-place library functions, with "
                 "argument tuples from a table plus a generic fallback; those that change structure on an unfrozen network must raise "
                 "XGIError and change nothing on a frozen twin; (b) histories on xgi.Hypergraph containing freeze(), compared with the "
